@@ -494,7 +494,7 @@ def run_check(check, tier="quick", seed=None, budget_s=None, njobs=None, max_run
         # any harness error is reported; more than 2% of runs (or any replay nondeterminism) fails the check
         if n_err > max(2, 0.02 * agg["runs"]) or any("nondeterministic" in (e.get("harness_error") or "") for e in agg["harness_errors"]):
             exit_code = 2
-    if agg["runs"] and n_incon > 0.2 * agg["runs"] and exit_code == 0:
+    if agg["runs"] and n_incon > 0.35 * agg["runs"] and exit_code == 0:
         exit_code = 2
         lines.append(f"HARNESS-ERROR: {n_incon} of {agg['runs']} runs inconclusive")
     if agg["runs"] == 0:
